@@ -11,9 +11,10 @@ if ! git apply "$out/m$n.diff" 2>/dev/null; then echo "RESULT $out m$n patch-doe
 b=ok
 for m in . fuzz tests; do (cd $m && go test -vet=off -count=1 ./... >/dev/null 2>&1) || b=FAIL; done
 cp "$out/m${n}_demo_test.go" "$place"
-if (eval "timeout 600 bash -c '$cmd'" >/tmp/scratch/demo_with_$$.log 2>&1); then w=PASSES; else w=fails; fi
+printf '%s\n' "$cmd" > /tmp/scratch/demo_cmd_$$.sh
+if (timeout 900 bash /tmp/scratch/demo_cmd_$$.sh >/tmp/scratch/demo_with_$$.log 2>&1); then w=PASSES; else w=fails; fi
 git apply -R "$out/m$n.diff"
-if (eval "timeout 600 bash -c '$cmd'" >/tmp/scratch/demo_without_$$.log 2>&1); then wo=passes; else wo=FAILS; fi
-rm -f "$place" /tmp/scratch/demo_with_$$.log /tmp/scratch/demo_without_$$.log
+if (timeout 900 bash /tmp/scratch/demo_cmd_$$.sh >/tmp/scratch/demo_without_$$.log 2>&1); then wo=passes; else wo=FAILS; tail -5 /tmp/scratch/demo_without_$$.log; fi
+rm -f "$place" /tmp/scratch/demo_with_$$.log /tmp/scratch/demo_without_$$.log /tmp/scratch/demo_cmd_$$.sh
 git checkout -q -- . ; git clean -fdq
 echo "RESULT $out m$n baseline=$b demo_with=$w demo_without=$wo"
